@@ -184,7 +184,7 @@ TEndRecord ==
     /\ \/ (lw.pc = "planned" /\ lw.rec.rid = Arg(1) /\ EndRecord)
        \/ (LwIdle /\ Arg(1) = nextRid /\ mode = "open"
            /\ nextRid' = nextRid + 1
-           /\ logs' = AppendRec([rid |-> nextRid, h |-> 0, cid |-> 0, w |-> <<>>])
+           /\ logs' = AppendRec([rid |-> nextRid, h |-> 0, cid |-> 0, w |-> <<>>]) /\ AppendPool
            /\ UNCHANGED <<hist, logical, calls, queue, nextCid, covl, lw, rpos, lovl, cw, lastEnacted,
                           tabs, dtabs, flushedCq, applied, durable, mode, rcv, ncrash, naux, lastRec, rdr, cur, trace>>)
     /\ Advance /\ UNCHANGED closed
@@ -229,7 +229,7 @@ TEnactEnd ==
     /\ lastEnacted' = cw.rec.rid
     /\ applied' = Max(applied, cw.rec.h)
     /\ cw' = [cw EXCEPT !.pc = "written", !.todo = {}]
-    /\ UNCHANGED <<hist, logical, calls, queue, nextCid, covl, lw, nextRid, logs, rpos, lovl,
+    /\ UNCHANGED <<hist, logical, calls, queue, nextCid, covl, lw, nextRid, logs, pool, nextLogId, rpos, lovl,
                    dtabs, flushedCq, durable, mode, rcv, ncrash, naux, lastRec, rdr, cur, trace>>
     /\ Advance /\ UNCHANGED closed
 
@@ -251,7 +251,7 @@ TTablesFlushed ==
     /\ IsEvent("TablesFlushed") /\ ~closed
     /\ IF mode = "open" /\ NumCq > flushedCq THEN FlushTables
        ELSE IF mode = "open"
-       THEN dtabs' = tabs /\ UNCHANGED <<hist, logical, calls, queue, nextCid, covl, lw, nextRid, logs, rpos, lovl, cw,
+       THEN dtabs' = tabs /\ UNCHANGED <<hist, logical, calls, queue, nextCid, covl, lw, nextRid, logs, pool, nextLogId, rpos, lovl, cw,
                    lastEnacted, tabs, flushedCq, applied, durable, mode, rcv, ncrash, naux, lastRec, rdr, cur, trace>>
        ELSE Stutter
     /\ Advance /\ UNCHANGED closed
@@ -276,7 +276,7 @@ TClosed ==
     /\ queue = <<>> /\ LwIdle /\ CwIdle /\ ~HasApp
     /\ closed' = TRUE /\ ~cur.open
     /\ rcv' = [rcv EXCEPT !.any = FALSE]
-    /\ UNCHANGED <<hist, logical, calls, queue, nextCid, covl, lw, nextRid, logs, rpos, lovl, cw, lastEnacted,
+    /\ UNCHANGED <<hist, logical, calls, queue, nextCid, covl, lw, nextRid, logs, pool, nextLogId, rpos, lovl, cw, lastEnacted,
                    tabs, dtabs, flushedCq, applied, durable, mode, ncrash, naux, lastRec, rdr, cur, trace>>
     /\ Advance
 
@@ -287,7 +287,7 @@ TClosedReplay ==
                      "TablesFlushed", "LogTruncate", "LogDelete"}
     /\ IF Rec[l].e = "EnactEnd"
        THEN /\ lastEnacted' = Arg(1) /\ rcv' = [rcv EXCEPT !.any = TRUE]
-            /\ UNCHANGED <<hist, logical, calls, queue, nextCid, covl, lw, nextRid, logs, rpos, lovl, cw, tabs, dtabs,
+            /\ UNCHANGED <<hist, logical, calls, queue, nextCid, covl, lw, nextRid, logs, pool, nextLogId, rpos, lovl, cw, tabs, dtabs,
                            flushedCq, applied, durable, mode, ncrash, naux, lastRec, rdr, cur, trace>>
        ELSE Stutter
     /\ Advance /\ UNCHANGED closed
@@ -296,7 +296,7 @@ TReopened ==
     /\ IsEvent("Reopened") /\ closed
     /\ closed' = FALSE
     /\ LET t == TabsApplyAll(tabs, UnenactedRecs, 1) IN tabs' = t /\ dtabs' = t
-    /\ logs' = <<>> /\ rpos' = 0 /\ flushedCq' = 0
+    /\ logs' = <<>> /\ rpos' = 0 /\ flushedCq' = 0 /\ pool' = {} /\ nextLogId' = 0
     /\ lovl' = [x \in Loc |-> NoLovl] /\ covl' = [x \in Loc |-> NoCovl]
     /\ nextRid' = IF rcv.any THEN lastEnacted + 1 ELSE 1
     /\ lastEnacted' = IF rcv.any THEN lastEnacted ELSE 1
@@ -313,7 +313,7 @@ TCrash ==
     /\ flushedCq' = 0 /\ rpos' = 0
     /\ rcv' = [f |-> 0, r |-> 0, any |-> FALSE, pre |-> 0, dmg |-> "none"]
     /\ closed' = FALSE
-    /\ UNCHANGED <<hist, logical, calls, nextRid, logs, lastEnacted, tabs, dtabs, applied, durable, ncrash, naux, lastRec, rdr, cur, trace>>
+    /\ UNCHANGED <<hist, logical, calls, nextRid, logs, pool, nextLogId, lastEnacted, tabs, dtabs, applied, durable, ncrash, naux, lastRec, rdr, cur, trace>>
     /\ Advance
 
 \* events of the replay inside Db::open of the image
@@ -321,7 +321,7 @@ TReplayEnact ==
     /\ IsEvent("EnactEnd") /\ mode = "crashed"
     /\ lastEnacted' = Arg(1)
     /\ rcv' = [rcv EXCEPT !.any = TRUE]
-    /\ UNCHANGED <<hist, logical, calls, queue, nextCid, covl, lw, nextRid, logs, rpos, lovl, cw, tabs, dtabs,
+    /\ UNCHANGED <<hist, logical, calls, queue, nextCid, covl, lw, nextRid, logs, pool, nextLogId, rpos, lovl, cw, tabs, dtabs,
                    flushedCq, applied, durable, mode, ncrash, naux, lastRec, rdr, cur, trace>>
     /\ Advance /\ UNCHANGED closed
 
@@ -349,7 +349,7 @@ TRecovered ==
              /\ tabs' = s /\ dtabs' = s
              /\ durable' = n /\ applied' = n
              /\ lastRec' = [n |-> n, lo |-> durable, ok |-> TRUE, pre |-> 0]
-    /\ logs' = <<>>
+    /\ logs' = <<>> /\ pool' = {} /\ nextLogId' = 0
     /\ nextRid' = IF rcv.any THEN lastEnacted + 1 ELSE 1
     /\ lastEnacted' = IF rcv.any THEN lastEnacted ELSE 1
     /\ mode' = "open"
@@ -360,7 +360,7 @@ TRecovered ==
 TStoreErr ==
     /\ IsEvent("StoreErr") /\ mode = "open"
     /\ mode' = "err"
-    /\ UNCHANGED <<hist, logical, calls, queue, nextCid, covl, lw, nextRid, logs, rpos, lovl, cw, lastEnacted,
+    /\ UNCHANGED <<hist, logical, calls, queue, nextCid, covl, lw, nextRid, logs, pool, nextLogId, rpos, lovl, cw, lastEnacted,
                    tabs, dtabs, flushedCq, applied, durable, rcv, ncrash, naux, lastRec, rdr, cur, trace>>
     /\ Advance /\ UNCHANGED closed
 
